@@ -48,7 +48,7 @@ pub fn singleton_save__KEY_SENT_FUNDS(storage: &mut dyn Storage, v: &SentFunds) 
 { unimplemented!() }
 #[verifier::external_body]
 pub fn singleton_may_load__KEY_SENT_FUNDS(storage: &dyn Storage) -> (r: StdResult<Option<SentFunds>>)
-    ensures r is Ok ==> r->Ok_0 == storage.view().sent_funds,
+    ensures r is Ok, r->Ok_0 == storage.view().sent_funds,
 { unimplemented!() }
 #[verifier::external_body]
 pub fn singleton_remove__KEY_SENT_FUNDS(storage: &mut dyn Storage)
@@ -64,7 +64,7 @@ pub fn singleton_save__KEY_TMP_SWAP(storage: &mut dyn Storage, v: &TmpSwapInfo) 
 { unimplemented!() }
 #[verifier::external_body]
 pub fn singleton_may_load__KEY_TMP_SWAP(storage: &dyn Storage) -> (r: StdResult<Option<TmpSwapInfo>>)
-    ensures r is Ok ==> r->Ok_0 == storage.view().tmp_swap,
+    ensures r is Ok, r->Ok_0 == storage.view().tmp_swap,
 { unimplemented!() }
 #[verifier::external_body]
 pub fn singleton_remove__KEY_TMP_SWAP(storage: &mut dyn Storage)
@@ -80,7 +80,7 @@ pub fn singleton_save__KEY_TMP_LIQUIDATOR(storage: &mut dyn Storage, v: &Addr) -
 { unimplemented!() }
 #[verifier::external_body]
 pub fn singleton_may_load__KEY_TMP_LIQUIDATOR(storage: &dyn Storage) -> (r: StdResult<Option<Addr>>)
-    ensures r is Ok ==> r->Ok_0 == storage.view().tmp_liquidator,
+    ensures r is Ok, r->Ok_0 == storage.view().tmp_liquidator,
 { unimplemented!() }
 #[verifier::external_body]
 pub fn singleton_remove__KEY_TMP_LIQUIDATOR(storage: &mut dyn Storage)
@@ -100,6 +100,7 @@ pub open spec fn position_at(s: Store, vamm: Seq<char>, trader: Seq<char>) -> Po
 #[verifier::external_body]
 pub fn store_position(storage: &mut dyn Storage, position: &Position) -> (r: StdResult<()>)
     ensures
+        r is Ok,
         r is Ok ==> final(storage).view() == (Store { positions: old(storage).view().positions.insert((position.vamm@, position.trader@), *position), ..old(storage).view() }),
         r is Err ==> final(storage).view() == old(storage).view(),
 { unimplemented!() }
@@ -109,7 +110,7 @@ pub fn remove_position(storage: &mut dyn Storage, position: &Position)
 { unimplemented!() }
 #[verifier::external_body]
 pub fn read_position(storage: &dyn Storage, vamm: &Addr, trader: &Addr) -> (r: StdResult<Position>)
-    ensures r is Ok ==> r->Ok_0 == position_at(storage.view(), vamm@, trader@),
+    ensures r is Ok, r->Ok_0 == position_at(storage.view(), vamm@, trader@),   // a stored Position always deserialises (T4b)
 { unimplemented!() }
 
 // ---- vamm-map bucket keyed by the vAMM address bytes ----
@@ -128,7 +129,7 @@ pub fn bucket_save__KEY_VAMM_MAP(storage: &mut dyn Storage, key: AddrBytes, v: &
 { unimplemented!() }
 #[verifier::external_body]
 pub fn bucket_may_load__KEY_VAMM_MAP(storage: &dyn Storage, key: AddrBytes) -> (r: StdResult<Option<VammMap>>)
-    ensures r is Ok ==> r->Ok_0 == (if storage.view().vamm_map.contains_key(key.k@) { Some(storage.view().vamm_map[key.k@]) } else { None::<VammMap> }),
+    ensures r is Ok, r->Ok_0 == (if storage.view().vamm_map.contains_key(key.k@) { Some(storage.view().vamm_map[key.k@]) } else { None::<VammMap> }),
 { unimplemented!() }
 pub open spec fn default_vamm_map(m: VammMap) -> bool { m.last_restriction_block == 0 && m.cumulative_premium_fractions@.len() == 0 }
 pub open spec fn vamm_map_at(s: Store, vamm: Seq<char>) -> VammMap
@@ -208,6 +209,15 @@ pub open spec fn q_token_balance(q: QuerierWrapper, token: AssetInfo, account: S
         AssetInfo::Token { contract_addr } => query_answer::<CW20BalanceResponse>(q, smart(contract_addr@, Payload::Cw20QBalance { address: account })).balance,
     }
 }
+pub open spec fn qok_vamm_config(q: QuerierWrapper, vamm: Seq<char>) -> bool { query_ok::<VammConfigResponse>(q, smart(vamm, Payload::VammQConfig)) }
+pub open spec fn qok_vamm_state(q: QuerierWrapper, vamm: Seq<char>) -> bool { query_ok::<VammStateResponse>(q, smart(vamm, Payload::VammQState)) }
+pub open spec fn qok_vamm_output_amount(q: QuerierWrapper, vamm: Seq<char>, d: Direction, amount: Uint128) -> bool { query_ok::<Uint128>(q, smart(vamm, Payload::VammQOutputAmount { direction: d, amount })) }
+pub open spec fn qok_vamm_output_twap(q: QuerierWrapper, vamm: Seq<char>, d: Direction, amount: Uint128) -> bool { query_ok::<Uint128>(q, smart(vamm, Payload::VammQOutputTwap { direction: d, amount })) }
+pub open spec fn qok_vamm_calc_fee(q: QuerierWrapper, vamm: Seq<char>, amount: Uint128) -> bool { query_ok::<CalcFeeResponse>(q, smart(vamm, Payload::VammQCalcFee { quote_asset_amount: amount })) }
+pub open spec fn qok_vamm_over_spread(q: QuerierWrapper, vamm: Seq<char>) -> bool { query_ok::<bool>(q, smart(vamm, Payload::VammQOverSpread)) }
+pub open spec fn qok_vamm_underlying_price(q: QuerierWrapper, vamm: Seq<char>) -> bool { query_ok::<Uint128>(q, smart(vamm, Payload::VammQUnderlyingPrice)) }
+pub open spec fn qok_vamm_over_fluctuation(q: QuerierWrapper, vamm: Seq<char>, d: Direction, amount: Uint128) -> bool { query_ok::<bool>(q, smart(vamm, Payload::VammQOverFluctuation { direction: d, base_asset_amount: amount })) }
+pub open spec fn qok_insurance_is_vamm(q: QuerierWrapper, insurance: Seq<char>, vamm: Seq<char>) -> bool { query_ok::<VammResponse>(q, smart(insurance, Payload::FundQIsVamm { vamm })) }
 // cosmwasm_std::BalanceResponse / cw20::BalanceResponse / cw20::Cw20QueryMsg (dependency types)
 pub struct BalanceResponse { pub amount: Coin }
 pub struct CW20BalanceResponse { pub balance: Uint128 }
